@@ -15,7 +15,7 @@ Modelled rather than verified (the theorems do not speak about these):
   in a field `x / 0 = 0`, so `asSocPercent 0 0 = 0` and the clamp bounds would "hold" at capacity 0,
   while the code computes `(0.0 / 0.0) * 100 = NaN` and `NaN.clamp(0, 100) = NaN`
   (`soc_capacity_zero_artefact`).  Every charge theorem is therefore stated for a positive
-  capacity, which the vehicle builders guarantee since /repo fix e199cb0 (`battery_capacity_positive`,
+  capacity, which the vehicle builders guarantee since /repo fix f2c4b1e (`battery_capacity_positive`,
   `battery_capacity_rejected`); `BEV::new` / `PHEV::new` called directly still take any capacity.
 * the time model is the speed-table engine (`SpeedTraversalModel`), the only time model the energy
   service is configured with; the prediction model is an arbitrary function (parameter); the LRU
@@ -1058,7 +1058,7 @@ theorem best_case_state_unit_mix_regression :
 /-- Why the charge theorems assume a positive capacity: in exact arithmetic a zero capacity gives a
 charge of 0 (`0 / 0 = 0` in a field), within bounds, whereas the code computes
 `(0.0 / 0.0) * 100 = NaN` and `NaN.clamp(0, 100) = NaN` — reproduced on the real code through the
-vehicle builders before /repo fix e199cb0 (oracle key `builder/battery-capacity-invalid`:
+vehicle builders before /repo fix f2c4b1e (oracle key `builder/battery-capacity-invalid`:
 `battery_capacity = 0` built, initial charge NaN, NaN after every edge; `battery_capacity = -5`
 built, consumption raised the charge). -/
 theorem soc_capacity_zero_artefact : asSocPercent (0 : ℚ) 0 = 0 := by decide +kernel
